@@ -92,7 +92,7 @@ pub const ENTRIES: &[Entry] = &[
     Entry { name: "conv.frame", slots: &[Sec(S::DebugFrame), Sec(S::EhFrame)] },
 ];
 
-fn dispatch<'a, M: Mk<'a>>(name: &str, m: &M, s: &'a Secs, p: &P, mon: &mut Mon) {
+pub fn dispatch<'a, M: Mk<'a>>(name: &str, m: &M, s: &'a Secs, p: &P, mon: &mut Mon) {
     match name {
         "units" => ep_info::units(m, s, p, mon),
         "abbrevs" => ep_info::abbrevs(m, s, p, mon),
@@ -117,21 +117,21 @@ fn dispatch<'a, M: Mk<'a>>(name: &str, m: &M, s: &'a Secs, p: &P, mon: &mut Mon)
     }
 }
 
-fn slot_get<'a>(s: &'a Secs, slot: Slot) -> &'a [u8] {
+pub(crate) fn slot_get<'a>(s: &'a Secs, slot: Slot) -> &'a [u8] {
     match slot {
         Sec(id) => s.get(id),
         Expr => &s.expr,
     }
 }
 
-fn slot_set(s: &mut Secs, slot: Slot, b: Vec<u8>) {
+pub(crate) fn slot_set(s: &mut Secs, slot: Slot, b: Vec<u8>) {
     match slot {
         Sec(id) => s.set(id, b),
         Expr => s.expr = b,
     }
 }
 
-fn slot_name(slot: Slot) -> &'static str {
+pub(crate) fn slot_name(slot: Slot) -> &'static str {
     match slot {
         Sec(id) => id.name(),
         Expr => "expr",
@@ -225,7 +225,7 @@ fn merge(a: &mut Secs, b: Secs) {
 }
 
 /// The seed pool for this run (deterministic in `ctx.seed`).
-fn seed_pool(ctx: &Ctx) -> Vec<Seed> {
+pub(crate) fn seed_pool(ctx: &Ctx) -> Vec<Seed> {
     let mut out = vec![];
     let all = Enc::all();
     let n_enc = if ctx.quick() { 16 } else { 64 };
@@ -541,4 +541,6 @@ pub fn run(ctx: &mut Ctx) {
     lap(ctx, "rand", &mut t0);
     family_short(ctx, &pool);
     lap(ctx, "short", &mut t0);
+    crate::props::c01_fuzz::family_fuzzart(ctx);
+    lap(ctx, "fuzzart", &mut t0);
 }
